@@ -165,20 +165,37 @@ def run_case(case, rng):
                 case.check(np.allclose(mean, want, rtol=1e-12, atol=1e-12), "beliefmdp-mean-successor!=state-prediction",
                            lambda: f"b={b!r} a={a!r}: {mean.tolist()!r} want {want.tolist()!r}", **facts)
                 # every successor is the posterior of some observation with the right total probability
-                groups = {}
+                # (posteriors are matched by tolerance, never by rounded keys)
+                groups = []          # [vector, probability]
                 for o in emitted:
                     post, po = B.posterior(sp, b, a, o)
                     if po > 0:
-                        key = tuple(round(post.get(s, 0.0), 12) for s in S)
-                        groups[key] = groups.get(key, 0.0) + po
-                got = {}
+                        vec = np.array([post.get(s, 0.0) for s in S])
+                        for g_ in groups:
+                            if np.allclose(g_[0], vec, rtol=0, atol=1e-9):
+                                g_[1] += po
+                                break
+                        else:
+                            groups.append([vec, po])
+                got = []
                 for nb, p in items:
                     if p > 0:
-                        key = tuple(round(float(x), 12) for x in nb.probs)
-                        got[key] = got.get(key, 0.0) + p
-                ok = set(got) == set(groups) and all(_close(got[k], groups[k], 1e-10) for k in got)
+                        vec = np.array(nb.probs, dtype=float)
+                        for g_ in got:
+                            if np.allclose(g_[0], vec, rtol=0, atol=1e-9):
+                                g_[1] += p
+                                break
+                        else:
+                            got.append([vec, p])
+                ok = len(got) == len(groups)
+                if ok:
+                    for vec, p in got:
+                        m = [g_ for g_ in groups if np.allclose(g_[0], vec, rtol=0, atol=1e-9)]
+                        if len(m) != 1 or not _close(m[0][1], p, 1e-10):
+                            ok = False
+                            break
                 case.check(ok, "beliefmdp-successors!=posteriors-weighted-by-observation-probability",
-                           lambda: f"b={b!r} a={a!r}: {got!r} want {groups!r}", **facts)
+                           lambda: f"b={b!r} a={a!r}: {[(v.tolist(), p) for v, p in got]!r} want {[(v.tolist(), p) for v, p in groups]!r}", **facts)
             r = case.call("BeliefMDP.reward", bm.reward, bel, a, None, facts=facts)
             if r is not case.FAIL:
                 case.check(_close(float(r), B.expected_reward(sp, b, a)), "beliefmdp-reward!=belief-expected-reward",
